@@ -28,6 +28,7 @@ type gCfg struct {
 	udpMux, udpMuxSrflx                 bool
 	tcpMux                              bool
 	relayTCP                            bool // TURN over TCP (turn:...?transport=tcp)
+	relayTLS                            bool // turns: over TCP against a server that accepts the connection and never answers the ClientHello
 	nIPs                                int
 	ifaceFilter                         bool
 	stunTimeout                         time.Duration
@@ -47,7 +48,7 @@ type gCfg struct {
 func (g gCfg) String() string {
 	return fmt.Sprintf("host=%v srflx=%v mapped=%v relay=%v udpMux=%v muxSrflx=%v tcpMux=%v relayTCP=%v ips=%d filter=%v stunTO=%v urls2=%v",
 		g.host, g.srflxStun, g.srflxMapped, g.relay, g.udpMux, g.udpMuxSrflx, g.tcpMux, g.relayTCP, g.nIPs, g.ifaceFilter, g.stunTimeout, g.twoStunURLs) + map[bool]string{true: " sched", false: ""}[g.sched] + map[bool]string{true: " netrev", false: ""}[g.netRev] + map[bool]string{true: " relayCloseErr", false: ""}[g.relayCloseErr] +
-		fmt.Sprintf(" mappedExt=%d relayExt=%d", g.mappedExt, g.relayExt)
+		fmt.Sprintf(" mappedExt=%d relayExt=%d", g.mappedExt, g.relayExt) + map[bool]string{true: " relayTLS", false: ""}[g.relayTLS]
 }
 
 func drawGCfg(t *tape.Tape) gCfg {
@@ -65,6 +66,7 @@ func drawGCfg(t *tape.Tape) gCfg {
 	g.parkAllocate = t.Bias(1, 2, "parkalloc")
 	g.tcpMux = g.host && t.Bias(1, 4, "tcpmux")
 	g.relayTCP = g.relay && t.Bias(1, 3, "relaytcp")
+	g.relayTLS = g.relayTCP && t.Bias(1, 3, "relaytls")
 	if !g.host && !g.srflxStun && !g.srflxMapped && !g.relay {
 		g.host = true
 	}
@@ -103,6 +105,7 @@ type gRig struct {
 	closed    bool // leftAtClose: callers of the agent's goroutines still parked in the simulator (listen, allocate, loop
 	// submission) at the moment Close returned
 	leftAtClose int
+	closeTook   time.Duration // simulated time between the Close call and its return
 }
 
 func newGRig(c *core.Ctx, t *tape.Tape, cfg gCfg, extra ...ice.AgentOption) (*gRig, error) {
@@ -155,6 +158,12 @@ func newGRig(c *core.Ctx, t *tape.Tape, cfg gCfg, extra ...ice.AgentOption) (*gR
 		u, _ := stun.ParseURI("turn:203.0.113.5:3478?transport=udp")
 		if cfg.relayTCP {
 			u, _ = stun.ParseURI("turn:203.0.113.5:3478?transport=tcp")
+			if cfg.relayTLS {
+				// the TLS handshake with the TURN server is pending for as long as the simulator says (the server
+				// is silent): only the end of the gathering cycle ends it
+				u, _ = stun.ParseURI("turns:203.0.113.5:3478?transport=tcp")
+				c.Fault("turns-server-silent-during-handshake")
+			}
 			g.W.TCPServers = append(g.W.TCPServers, netip.MustParseAddrPort("203.0.113.5:3478"))
 			opts = append(opts, ice.WithTURNTransportProtocols([]ice.NetworkType{ice.NetworkTypeTCP4}))
 		}
@@ -277,8 +286,10 @@ func (g *gRig) pending() int { return len(g.W.Parked()) + len(g.W.InFlight()) + 
 func (g *gRig) closeAgent() (returned bool) {
 	g.closed = true
 	done := make(chan struct{})
+	t0 := time.Now()
 	go func() {
 		_ = g.ag.A.Close()
+		g.closeTook = time.Since(t0)
 		close(done)
 	}()
 	for i := 0; i < 200; i++ {
